@@ -22,6 +22,8 @@ type GenOpts struct {
 	NoBigFiles  bool
 	AvoidClock  []int64 // unix times to keep every legitimate timestamp away from (±2 days)
 	NoHostLinks bool    // no symlink targets that exist on the build host
+	ManyFilesP      float64 // probability of a tree with hundreds of tiny files (size/count thresholds in compressors)
+	PartialInvalidP float64 // probability that the configuration is invalid for some formats only
 }
 
 type gContent struct {
@@ -222,9 +224,11 @@ func GenWorldCfg(g *Rng, opt GenOpts) (World, map[string]any) {
 			cfg["section"] = "utils"
 			cfg["priority"] = "extra"
 		}
-	} else {
-		// maintainer with an address is needed for apk key names
+	} else if opt.ForceSign || !g.Bool(0.5) {
+		// (a maintainer with an address is needed for derived apk key names)
 		cfg["maintainer"] = "Verif Harness <pkg@verif.invalid>"
+	} else {
+		x.feats = append(x.feats, "maintainer_unset")
 	}
 	if x.feat("relations", 0.5) {
 		cfg["depends"] = []any{"bash", "libc6 (>= 2.17)"}
@@ -296,6 +300,7 @@ func GenWorldCfg(g *Rng, opt GenOpts) (World, map[string]any) {
 		fiP = 0.7
 	}
 
+	globFirstDst := ""
 	// main binary (always: gives every format a payload)
 	x.addFile("src/bin/app", x.size(), Pick(g, []uint32{0o755, 0o775, 0o700}))
 	{
@@ -322,6 +327,7 @@ func GenWorldCfg(g *Rng, opt GenOpts) (World, map[string]any) {
 		for i := 0; i < n; i++ {
 			x.addFile(fmt.Sprintf("src/share/g/f%d.txt", i), x.sizeSmall(), 0o644)
 		}
+		globFirstDst = "/usr/share/app/f0.txt"
 		deep := g.Bool(0.5)
 		if deep {
 			x.addFile("src/share/g/sub/deep.txt", x.sizeSmall(), 0o640)
@@ -334,7 +340,8 @@ func GenWorldCfg(g *Rng, opt GenOpts) (World, map[string]any) {
 		case g.Bool(0.5) || !deep:
 			src = "@SRC@src/share/g/*.txt"
 		default:
-			src = "@SRC@src/share/g/**/*" // needs at least one nested directory to match
+			src = "@SRC@src/share/g/**/*" // matches only below nested directories
+			globFirstDst = "/usr/share/app/deep.txt"
 		}
 		m := map[string]any{"src": src, "dst": "/usr/share/app"}
 		if g.Bool(fiP) {
@@ -355,6 +362,13 @@ func GenWorldCfg(g *Rng, opt GenOpts) (World, map[string]any) {
 			m["file_info"] = x.fileInfo(true)
 		}
 		add(gContent{m: m, refPath: "src/tree", refKind: "tree"})
+	}
+	if opt.ManyFilesP > 0 && x.feat("many_files", opt.ManyFilesP) {
+		n := g.Range(400, 1300)
+		for i := 0; i < n; i++ {
+			x.addFile(fmt.Sprintf("src/many/d%02d/f%04d", i%17, i), g.Intn(24), 0o644)
+		}
+		add(gContent{m: map[string]any{"src": "@SRC@src/many", "dst": "/opt/app/many", "type": "tree"}, refPath: "src/many", refKind: "tree"})
 	}
 	if x.feat("dir", 0.5) {
 		m := map[string]any{"dst": "/var/lib/app", "type": "dir"}
@@ -417,6 +431,54 @@ func GenWorldCfg(g *Rng, opt GenOpts) (World, map[string]any) {
 		w.Env["VERIF_REL"] = "expanded"
 		x.addFile("src/exp/e.txt", 40, 0o644)
 		add(gContent{m: map[string]any{"src": "@SRC@src/exp/e.txt", "dst": "/usr/share/${VERIF_REL}/e.txt", "expand": true}, refPath: "src/exp/e.txt", refKind: "content", single: true})
+	}
+
+	if opt.PartialInvalidP > 0 && x.feat("partial_invalid", opt.PartialInvalidP) {
+		kinds := []string{"pkgr_collision", "platform", "rpm_compression"}
+		globIdx := -1
+		for i, c := range contents {
+			if c.refKind == "glob" {
+				globIdx = i
+			}
+		}
+		if globFirstDst != "" && globIdx >= 0 {
+			kinds = append(kinds, "rpm_ghost_collides_glob", "rpm_ghost_collides_glob", "rpm_ghost_collides_glob", "pkgr_collides_glob", "pkgr_collides_glob", "pkgr_collides_glob")
+		}
+		// where the colliding entry goes: mostly before the expanding entry,
+		// so that the expanding entry is the one that hits the occupied place
+		posNear := func() int {
+			if globIdx >= 0 && g.Bool(0.7) {
+				return g.Intn(globIdx + 1)
+			}
+			return g.Intn(len(contents) + 1)
+		}
+		switch k := Pick(g, kinds); k {
+		case "rpm_ghost_collides_glob":
+			// only rpm sees the ghost, so only rpm's preparation collides
+			c := gContent{m: map[string]any{"dst": globFirstDst, "type": "ghost"}, typ: "ghost"}
+			pos := posNear()
+			contents = append(contents[:pos], append([]gContent{c}, contents[pos:]...)...)
+			w.ExpectFail = []string{"rpm"}
+		case "pkgr_collides_glob":
+			// a per-packager entry occupies a place the glob expands to
+			p := Pick(g, allFormats)
+			c := gContent{m: map[string]any{"src": "@SRC@src/bin/app", "dst": globFirstDst, "packager": p}, pkgr: p, refPath: "src/bin/app", refKind: "content", single: true}
+			pos := posNear()
+			contents = append(contents[:pos], append([]gContent{c}, contents[pos:]...)...)
+			w.ExpectFail = []string{p}
+		case "pkgr_collision":
+			p := Pick(g, allFormats)
+			c := gContent{m: map[string]any{"src": "@SRC@src/bin/app", "dst": "/usr/bin/app", "packager": p}, pkgr: p, refPath: "src/bin/app", refKind: "content", single: true}
+			pos := g.Intn(len(contents) + 1)
+			contents = append(contents[:pos], append([]gContent{c}, contents[pos:]...)...)
+			w.ExpectFail = []string{p}
+		case "platform":
+			cfg["platform"] = "darwin"
+			w.ExpectFail = []string{"apk", "archlinux"}
+		case "rpm_compression":
+			w.ExpectFail = []string{"rpm"}
+			x.feats = append(x.feats, "rpm_compression_invalid")
+		}
 	}
 
 	base := make([]any, 0, len(contents))
@@ -633,13 +695,18 @@ func GenWorldCfg(g *Rng, opt GenOpts) (World, map[string]any) {
 		}
 		x.addKey("keys/apk.rsa", rsaKey)
 		apkSig := map[string]any{"key_file": "@SRC@keys/apk.rsa"}
-		if g.Bool(0.5) {
+		if _, hasMaint := cfg["maintainer"]; g.Bool(0.5) || !hasMaint {
 			apkSig["key_name"] = "verifkey"
 		}
 		apkBlock["signature"] = apkSig
 		w.Signed = []string{"deb", "rpm", "apk"}
 	}
 
+	for _, f := range x.feats {
+		if f == "rpm_compression_invalid" {
+			rpmBlock["compression"] = "brotli"
+		}
+	}
 	if len(debBlock) > 0 {
 		cfg["deb"] = debBlock
 	}
@@ -692,7 +759,7 @@ func GenWorldCfg(g *Rng, opt GenOpts) (World, map[string]any) {
 				o["scripts"] = map[string]any{"postinstall": "@SRC@" + p}
 				effScripts[f]["postinstall"] = p
 			}
-			if g.Bool(0.3) {
+			if g.Bool(0.3) && !contains(w.ExpectFail, f) {
 				// wholesale replacement of the contents list for this format
 				var list []gContent
 				for _, c := range contents {
